@@ -4,7 +4,8 @@
    the implementation by the check's oracle (the file is compared with the sessions' view after
    every command); the model carries the sequence names per message, whose complement law is
    proved below. *)
-From Asimap Require Import Base.Res Spec.SetSem Model.Mbox Proofs.MboxInv Proofs.MboxStep Proofs.MboxLe Proofs.MboxExact Proofs.MboxFlags.
+From Asimap Require Import Base.Res Spec.SetSem Model.Mbox Model.MhSeq Proofs.MboxInv Proofs.MboxStep Proofs.MboxLe Proofs.MboxExact Proofs.MboxFlags Proofs.MhSeqP.
+From Coq Require Import Sorting.Sorted.
 Open Scope Z_scope.
 
 (* delivered messages are appended at the end, in MH-number order, with UIDs >= the old UIDNEXT and
@@ -35,6 +36,69 @@ Print Assumptions C13_seen_iff_not_unseen.
 Theorem C13_removed_exactly : forall b del, b_msgs (fst (expunge b del)) = filter (fun m => negb (del m)) (b_msgs b).
 Proof. exact expunge_exact. Qed.
 Print Assumptions C13_removed_exactly.
+
+(* ---- the content of `.mh_sequences` (Model/MhSeq.v: Mailbox.set_sequences_in_folder and
+   _get_sequences_update_seen as set computations) ----
+   What the server hands to MH.set_sequences lists, for every sequence name and every message key,
+   exactly: the keys of the server's own sequences, plus what the folder's file says about keys above
+   every key the server knows that the server has not just removed itself.  Nothing else. *)
+Theorem C13_written_sequences_exact : forall msg_keys s forget folder name k,
+  In k (seq_of (written msg_keys s forget folder) name) <->
+  In k (seq_of s name) \/
+  (exists keys, In (name, keys) folder /\ In k keys /\ highest_key msg_keys < k /\ ~ In k forget).
+Proof. exact written_spec. Qed.
+Print Assumptions C13_written_sequences_exact.
+
+(* MH tools see IMAP flag changes: for every message the server knows (its keys are strictly
+   ascending, so all are <= the last), the file says exactly what the server's sequences say *)
+Theorem C13_mh_tools_see_flags : forall msg_keys s forget folder name k,
+  StronglySorted Z.lt msg_keys -> Forall (fun x => 0 <= x) msg_keys -> In k msg_keys ->
+  (In k (seq_of (written msg_keys s forget folder) name) <-> In k (seq_of s name)).
+Proof.
+  intros msg_keys s forget folder name k Hs Hp Hin.
+  exact (written_known_exact msg_keys s forget folder name k (highest_is_max msg_keys k Hs Hp Hin)).
+Qed.
+Print Assumptions C13_mh_tools_see_flags.
+
+(* a delivery the server has not taken in yet keeps what the MH tool said about it (`unseen`) *)
+Theorem C13_untaken_delivery_keeps_its_sequences : forall msg_keys s forget folder name keys k,
+  In (name, keys) folder -> In k keys -> highest_key msg_keys < k -> ~ In k forget ->
+  In k (seq_of (written msg_keys s forget folder) name).
+Proof. exact written_keeps_newer. Qed.
+Print Assumptions C13_untaken_delivery_keeps_its_sequences.
+
+(* a message the server has just removed leaves nothing behind for a later message to inherit *)
+Theorem C13_removed_keys_forgotten : forall msg_keys s forget folder name k,
+  In k forget -> (In k (seq_of (written msg_keys s forget folder) name) <-> In k (seq_of s name)).
+Proof. exact written_forgets. Qed.
+Print Assumptions C13_removed_keys_forgotten.
+
+(* reading the file: Seen becomes the complement of unseen among the folder's messages, Recent gains
+   the new keys, every other sequence is taken as the MH tool left it *)
+Theorem C13_seen_is_complement_of_unseen : forall msg_keys s recent k,
+  In k (seq_of (update_seen msg_keys s recent) "Seen") <-> In k msg_keys /\ ~ In k (seq_of s "unseen").
+Proof. exact update_seen_seen. Qed.
+Print Assumptions C13_seen_is_complement_of_unseen.
+
+Theorem C13_recent_gains_new_keys : forall msg_keys s recent k,
+  In k (seq_of (update_seen msg_keys s recent) "Recent") <-> In k (seq_of s "Recent") \/ In k recent.
+Proof. exact update_seen_recent. Qed.
+Print Assumptions C13_recent_gains_new_keys.
+
+Theorem C13_other_sequences_untouched : forall msg_keys s recent name,
+  name <> "Seen"%string -> name <> "Recent"%string ->
+  seq_of (update_seen msg_keys s recent) name = seq_of s name.
+Proof. exact update_seen_others. Qed.
+Print Assumptions C13_other_sequences_untouched.
+
+(* the server knows 1-3 (3 flagged, 2 unseen); an MH tool has delivered 4 and 5 (unseen) and the server
+   has just removed 5: the file keeps 4 in unseen, drops 5, lists the known messages as the server has them *)
+Example C13_mhseq_example :
+  let w := written [1; 2; 3] [("flagged", [3]); ("unseen", [2]); ("Seen", [1; 3])]%string [5]
+                   [("unseen", [2; 4; 5]); ("flagged", [1])]%string in
+  (seq_of w "unseen", seq_of w "flagged", seq_of w "Seen") = ([2; 4], [3], [1; 3]) /\
+  seq_of (update_seen [1; 2; 3; 4] [("unseen", [2; 4]); ("Seen", [1])]%string [4]) "Seen" = [1; 3].
+Proof. split; vm_compute; reflexivity. Qed.
 
 Example C13_example :
   let ops := [OAppend 1 "inbox" [] 10 1; OSelect 1 "inbox" false; OIdle 1; ODeliver "inbox" 2 true 7 50; OPoll] in
